@@ -7,7 +7,10 @@ import (
 
 // Dup creates a copy the given data type.
 func Dup(d DataType) DataType {
-	return newDupper().DupType(d)
+	dupper := newDupper()
+	res := dupper.DupType(d)
+	dupper.dupViews()
+	return res
 }
 
 // DupAtt creates a copy of the given attribute.
@@ -19,6 +22,7 @@ func DupAtt(att *AttributeExpr) *AttributeExpr {
 	}
 	res := dupper.DupAttribute(att)
 	res.Bases = duppedBases
+	dupper.dupViews()
 	return res
 }
 
@@ -26,6 +30,8 @@ func DupAtt(att *AttributeExpr) *AttributeExpr {
 type dupper struct {
 	uts map[string]UserType
 	ats map[*AttributeExpr]struct{}
+	// rts lists the copies of result types whose views remain to be copied.
+	rts []*ResultTypeExpr
 }
 
 // newDupper returns a new initialized dupper.
@@ -104,17 +110,10 @@ func (d *dupper) DupType(t DataType) DataType {
 
 		if rt, ok := dp.(*ResultTypeExpr); ok {
 			// The views belong to the result type: give the dup its own so
-			// that changing them does not change the original.
+			// that changing them does not change the original. They are
+			// copied once all the attributes are (see dupViews).
 			if rt.Views != nil {
-				views := make([]*ViewExpr, len(rt.Views))
-				for i, v := range rt.Views {
-					views[i] = &ViewExpr{
-						AttributeExpr: d.DupAttribute(v.AttributeExpr),
-						Name:          v.Name,
-						Parent:        rt,
-					}
-				}
-				rt.Views = views
+				d.rts = append(d.rts, rt)
 			}
 			// Make sure that if we are dupping a generated type we also put
 			// the dup in the generated type list so that it gets properly
@@ -127,6 +126,27 @@ func (d *dupper) DupType(t DataType) DataType {
 		return dp
 	}
 	panic("unknown type " + fmt.Sprintf("%T", t))
+}
+
+// dupViews copies the views of the result types copied so far. The attributes
+// of a view may refer to types which are not the ones used by the attributes
+// of the result type (e.g. the view of a projected result type refers to the
+// original types). User types are copied once per identifier, copying the
+// views last makes sure that the types used by attributes are the ones copied.
+func (d *dupper) dupViews() {
+	for len(d.rts) > 0 {
+		rt := d.rts[0]
+		d.rts = d.rts[1:]
+		views := make([]*ViewExpr, len(rt.Views))
+		for i, v := range rt.Views {
+			views[i] = &ViewExpr{
+				AttributeExpr: d.DupAttribute(v.AttributeExpr),
+				Name:          v.Name,
+				Parent:        rt,
+			}
+		}
+		rt.Views = views
+	}
 }
 
 // dupValue returns a copy of v in which the slices and maps are duplicated
